@@ -102,6 +102,7 @@ class Scenario:
         self._seen_s = 0
         self.stop = False
         self.bare = set()        # ends that handled a frame with a bare `deliver` and had no real round since
+        self.followed = {'c': set(), 's': set()}   # flows that had an explicit callback since that end's last bare `deliver`
         self.idle_bad = []       # real passes that did not lower the measure and yet left something to do at their end
         self.mu_bad = []         # real passes that did not decrease the termination measure although they changed the state
         self.wrote = {}          # (flow, 'app'|'dst') -> bytes written by the endpoint (harness log)
@@ -117,6 +118,9 @@ class Scenario:
             internal = True
         if st[0] == 'deliver' and not internal:
             self.bare.add(st[1])
+            self.followed[st[1]] = set()
+        if st[0] == 'cb':
+            self.followed[st[1]].add(st[2])
         if st[0] == 'deliver' and internal and len(st) == 3:
             st = st + ('internal',)
         src = None
@@ -270,7 +274,9 @@ class Scenario:
             for i, f in enumerate(t.flows):
                 p = f.sproxy if end == 's' else f.cproxy
                 hl = t.shandlers if end == 's' else t.chandlers
-                if p is not None and p in hl:
+                if p is not None and p in hl and i not in self.followed[end]:
+                    # (a flow the script itself called back after the frame has had its one callback: a second one
+                    # would be a wake-up the real loop does not give)
                     self.do(('cb', end, i, full))
         self.bare.clear()
         for rnd in range(max_rounds):
@@ -1139,6 +1145,58 @@ def closed_app_streaming_dst(ctx, rng, prop):
         q = sc.drain()
         if not sc.stop and q:
             oracle_ids_consistent(ctx, sc, prop)
+        oracle_alive(ctx, sc, prop, 'run')
+        return sc.s.ins, sc.s.outs
+    finally:
+        sc.close()
+
+
+def abort_then_new_flow(ctx, rng, prop, chunks):
+    """An application aborts a download (EPIPE towards it) while frames of that flow are still in flight from
+    the server; a new connection is accepted before they arrive.  Nothing of the old flow may reach the new one."""
+    o = Opts(nflows=2, steps=0)
+    sc = Scenario(rng, o)
+    try:
+        sc.do(('accept',))
+        sc.do(('deliver', 's', 'ok'))
+        sc.do(('deliver', 's', 'ok'))
+        for k in range(chunks):
+            sc.env_write(0, 'dst', payload(rng, 2048, 7 + k))
+            sc.do(('cb', 's', 0, Io('ok', 'd2048', 'a', False)))
+        # first frames reach the client, the application is gone: EPIPE
+        while sc.t.smux.outbuf and not sc.stop:
+            import struct
+            (_a, _b, chan, cmd, _n) = struct.unpack('!ccHHH', sc.t.smux.outbuf[0][:8])
+            sc.do(('deliver', 'c', 'ok'))
+            if cmd == sc.t.ssnet.CMD_TCP_DATA:
+                break
+        sc.do(('ae', 0))
+        sc.do(('cb', 'c', 0, Io('ok', 'd1', 'p', False)))
+        sc.do(('idle', 'c'))
+        sc.do(('cb', 'c', 0, Io('ok', 'd1', 'p', False)))
+        sc.do(('idle', 'c'))
+        sc.faulty.add(0)
+        # a new connection arrives while the rest of the old flow's frames are still in flight
+        sc.do(('accept',))
+        t = sc.t
+        if len(t.flows) > 1 and t.flows[1].chan == t.flows[0].chan and t.smux.channels.get(t.flows[0].chan):
+            # the concrete instance of C06_fresh_before_wrap / C06_released_id_not_next: 65535 ids, two allocations
+            report(ctx, sc, '%s:ids:handed-out-again-while-the-peer-still-has-the-old-flow-open' % prop, 1, 'second accept',
+                   'an identifier the cursor has not come round to (MAX_CHANNEL ids, two allocations so far)',
+                   'id %d again: the server still has the first flow registered under it, %d of its frames are on their '
+                   'way to the client' % (t.flows[1].chan, len(t.smux.outbuf)))
+        oracle_prefix(ctx, sc, prop, 'after abort')
+        if len(sc.t.flows) > 1:
+            sc.env_write(1, 'dst', b'fresh answer for the second connection')
+        q = sc.drain(on_round=lambda s: oracle_prefix(ctx, s, prop, 'drain after abort'))
+        for i in range(len(sc.t.flows)):
+            sc.do(('ae', i))
+            sc.do(('de', i))
+        q = sc.drain(on_round=lambda s: oracle_prefix(ctx, s, prop, 'final drain after abort'))
+        if not sc.stop:
+            oracle_complete(ctx, sc, prop, q)
+            if q:
+                oracle_quiet(ctx, sc, prop)
         oracle_alive(ctx, sc, prop, 'run')
         return sc.s.ins, sc.s.outs
     finally:
